@@ -122,6 +122,7 @@ def run(ctx):
     from .common import dt_function, dt_weaver, DT_RULE
     ctx.rule('C15.5', DT_RULE)
     dt_function(ctx, 'C15.5', NOISE, {'a': 'a'})
+    dt_function(ctx, 'C15.5', NOISE, {'a': 'a', 'snr': 'a'}, what='noise_gauss[per-sample snr]')
     dt_weaver(ctx, 'C15.5', wm, ['noise'])
     ctx.notes.append('NOT DECIDED: the statistical clause (empirical SNR of a long series).')
     ctx.trust('numpy.random.normal(loc, scale, size) draws N(loc, scale^2) from the global generator (library contract)',
